@@ -1,9 +1,9 @@
 # add(pid, category, technique, level text, level note, design ref) -- one entry per built check
 
 add("C19", "model_checking",
-    "TLA+ contract (SetMap) + implementation-shaped splay model (Splay) checked exhaustively by TLC; real src/set.c explored breadth-first by a harness and every recorded call validated by TLC against the contract (trace validation); real vs model transition relation compared for drift",
-    "TLC explores Splay.tla completely over 7 keys (2 676 tree shapes, 101 688 transitions; thorough: 8 keys, 11 149 / 479 407), checking search-tree order, list = in-order walk, count, and refinement to the sorted-map contract on every transition. The real set.c is driven through every call from every reachable shape over the same keys for each stock comparator (int incl. INT_MIN/INT_MAX/+-2e9, case-variant char*, void*, node address), and TLC evaluates result, size, first/next/prev order, cleanup-exactly-once and the structural audit on every recorded call; plus model-generated behaviours and long seeded random histories over 64-200 keys.",
-    "Exhaustive for <=7 (thorough <=8) keys; larger universes sampled. Node-address comparator explored exhaustively with no_dispose removals only (disposal covered by random histories). Memory safety observed through ASan/UBSan only. Quick tier uses 6 keys for the two pointer comparators.",
+    "TLA+ contract (SetMap) + implementation-shaped splay model (Splay) checked exhaustively by TLC, incl. independence of set_insert from what the inserted node's links held; the comparators' orders stated in KeyOrder.tla; real src/set.c explored breadth-first by a harness (poisoned link fields, recycled nodes) and every recorded call validated by TLC against the contract (trace validation); real vs model transition relation compared for drift",
+    "TLC explores Splay.tla completely over 7 keys (2 676 shapes, 101 688 transitions; thorough: 8 keys, 11 149 / 479 407), checking search-tree order, list = in-order walk, count, refinement to the sorted-map contract, and that set_insert's outcome never depends on what the inserted node's four links held (every NULL / non-node / live-node combination over 3-4 keys; the 'links left unwritten' Bug switch is refuted on every run). The real set.c is driven through every call from every reachable shape for each stock comparator (int incl. INT_MIN/INT_MAX/+-2e9, void*, node address, char* over key universes built from case variants, prefixes, the empty string and the characters adjacent to the letter ranges @ [ \\ ] ^ _ ` { | and digits), with poisoned link fields in every allocated node and, from every shape, recycling of nodes taken out with no_dispose (into an empty set, replacing the only element, as new key and as replacement in larger sets). TLC evaluates result, size, order, cleanup-exactly-once and the structural audit on every call, checks each logged key table against strcasecmp's C-locale order stated in KeyOrder.tla, and validates random histories over 20-200 keys including boundary-character strings and recycled nodes.",
+    "Exhaustive for <=7 (thorough <=8) keys; quick runs the string universes 0-2 without the recycling sequences and universe 3 in thorough only; string keys are ASCII (bytes >= 128 and other locales not exercised); a node re-inserted after a no_dispose removal is a new element identity. Memory safety observed through ASan/UBSan only.",
     "DESIGN.md 6 (C19), 5.3")
 
 add("C20", "model_checking",
@@ -189,22 +189,25 @@ add("C17", "model_checking",
     "DESIGN.md 6 (C17), 8 (D10, D11), 9")
 
 add("C08", "model_checking",
-    "TLA+ spec of the input layer (ReadLineOps/ReadLine: evbuffer, readln CRLF, strtol, in-place tokenizer, argv[16], EOF) model-checked "
-    "by TLC against a chunking-independent contract; conformance on the real ASan/UBSan daemon: model-generated histories with junk "
-    "delivered in exact read() chunks / truncated at every byte, differential against the clean run, and exhaustive short byte strings "
-    "+ line mutations with probes, all traces judged by TLC (ReadLineTrace)",
-    "TLC decides exhaustively (streams <=5-7 bytes over 4-10-symbol alphabets incl. LF, CR, NUL, ':' and space, every chunking, EOF "
-    "after every byte, ARGV 2-3; 5.6e5 states quick, 1.8e7 thorough; six bug switches must each be refuted) that the "
-    "splitter/tokenizer delivers a function of the byte stream only, keeps only the unterminated tail and stores inside argv[]. Real "
-    "daemon (quick): 141 model histories with ~60 junk forms spliced in (unknown ids incl. ids beyond the int range, unknown commands, "
-    "malformed replies carrying the live tag, NUL / 8-bit bytes, 14-21 arguments, lines of 511-9000 bytes) in 4 932 deliveries - one "
-    "line per write, one write, byte by byte, every 2-chunk split, truncation at every byte followed by EOF - each compared step by "
-    "step with the clean line-at-a-time run (two real runs); 24 992 byte-level cases (all strings <=3 over 12 symbols in 16 contexts, "
-    "mutations of 21 valid lines) each followed by probes; TLC judges completion, no hang, exit 0, no sanitizer report, same treatment, "
-    "junk = stutter.",
+    "TLA+ spec of the input layer (ReadLineOps/ReadLine: evbuffer, readln CRLF, strtol, in-place tokenizer, argv[16] as an array across the "
+    "lines of one read, EOF) model-checked by TLC against a chunking-independent contract; conformance on the real ASan/UBSan daemon: "
+    "model-generated histories with junk delivered in exact read() chunks / truncated at every byte / glued without barriers / as chunks of "
+    "exactly k x 4096 bytes with the input kept open, differential against the clean run, and exhaustive short byte strings + line mutations "
+    "with probes, all traces judged by TLC (ReadLineTrace)",
+    "TLC decides exhaustively (streams <=4-8 bytes over 4-10-symbol alphabets, every chunking including reads that fill the read buffer and "
+    "are followed by more, EOF after every byte, ARGV 2-3, with/without unknown client ids; 6.7e5 states quick, 2.0e7 thorough; eight bug "
+    "switches each refuted, `drainfull` and `argvstale` on every run) that the splitter/tokenizer delivers a function of the byte stream only, "
+    "holds no complete line after a read (NoLineWaiting), stores inside argv[] and shows handlers NULL for an absent parameter "
+    "(AbsentParamIsNull). Real daemon (quick): 142 histories in ~6 500 deliveries (line per write, one write, byte by byte, all 2-chunk "
+    "splits, truncation at every byte followed by EOF), ~510 deliveries with junk lines glued directly in front of lines with no barrier "
+    "between them (adjacency family: 59 junk forms x 37 lines carrying their minimum number of parameters, same read chunk vs strictly line "
+    "by line), 322 prompt deliveries (a chunk of exactly k x 4096 bytes ending in a barrier line, input kept open, answer required within "
+    "5 s), each compared step by step with the clean run; 24 992 byte-level cases with probes. TLC judges completion, prompt, no hang, exit "
+    "0, no sanitizer report, same treatment, junk = stutter.",
     "No-crash / no-hang / clean-exit / 'same treatment' are conformance and sanitizer exploration of the spec-generated input space (two "
-    "real runs compared by TLC), not model checking. An unterminated last line may be dropped (as the code does) or taken once. Chunks "
-    "are exact: each is written only after FIONREAD on the pipe reports 0.",
+    "real runs compared by TLC), not model checking. An unterminated last line may be dropped (as the code does) or taken once. Chunks are "
+    "exact (written only after FIONREAD reports 0) up to the 4096-byte read size; promptness is judged only for chunks of exactly k x 4096 "
+    "bytes and must be late twice. A junk line glued in front of a line may print its own oper notice (compared without oper notices).",
     "DESIGN.md 6 (C08), 13.1, 10")
 
 add("C10", "model_checking",
